@@ -18,6 +18,43 @@ from .interp import Closure, Env
 
 REPO = os.environ.get("PYVC_REPO", "/repo")
 
+# Code that the repository *emits* (methods of the generated client are built as ASTs by client_generators/client.py and
+# exist as Python text only in a generated package).  A provider runs the real generator of the tree under check into a
+# scratch directory on every run; the functions of that package are then read exactly like repository functions.
+GENERATED = {}     # package name -> provider() -> root directory containing the package
+_GEN_ROOTS = {}
+
+
+def register_generated(pkg, provider):
+    GENERATED.setdefault(pkg, provider)
+
+
+def ensure_generated(module_name):
+    pkg = module_name.split(".")[0]
+    if pkg in GENERATED and pkg not in _GEN_ROOTS:
+        import atexit
+        import shutil
+        root = os.path.realpath(GENERATED[pkg]())
+        _GEN_ROOTS[pkg] = root
+        if root not in sys.path:
+            sys.path.insert(0, root)
+        importlib.invalidate_caches()
+        _GEN_OWNER[root] = os.getpid()
+        atexit.register(cleanup_generated)
+    return _GEN_ROOTS.get(pkg)
+
+
+_GEN_OWNER = {}
+
+
+def cleanup_generated():
+    """remove the scratch packages this process generated (forked workers call it explicitly: they leave via os._exit)"""
+    import shutil
+    for root, pid in list(_GEN_OWNER.items()):
+        if pid == os.getpid():
+            shutil.rmtree(root, ignore_errors=True)
+            _GEN_OWNER.pop(root, None)
+
 
 class SourceIndex:
     def __init__(self, repo=REPO):
@@ -28,7 +65,8 @@ class SourceIndex:
 
     def under_repo(self, path):
         try:
-            return os.path.realpath(path).startswith(self.repo + os.sep)
+            rp = os.path.realpath(path)
+            return rp.startswith(self.repo + os.sep) or any(rp.startswith(r + os.sep) for r in _GEN_ROOTS.values())
         except Exception:
             return False
 
@@ -80,6 +118,7 @@ class SourceIndex:
 
     def closure(self, module_name, qualname):
         """Closure for `module:qualname` (methods: Class.method; nested: outer.<locals>.inner)."""
+        ensure_generated(module_name)
         module = importlib.import_module(module_name)
         path = module.__file__
         if not self.under_repo(path):
